@@ -15,7 +15,9 @@ K_NULL, K_BOOL, K_FLOAT, K_INT, K_UINT, K_STRING, K_ARRAY, K_OBJECT = range(8)
 
 
 class Bounds:
-    def __init__(self, str_cap=4, arr_cap=2, depth=2, ascii_only=True, kinds=None):
+    def __init__(self, str_cap=4, arr_cap=2, depth=2, ascii_only=True, kinds=None, names=None, as_object=False):
+        self.names = names
+        self.as_object = as_object
         self.str_cap = str_cap
         self.arr_cap = arr_cap
         self.depth = depth
@@ -143,6 +145,9 @@ class SymDoc:
         self.oid = next_oid()
         self.cells = {}     # key(bytes) -> (present Bool, Cell)
         self.requests = []
+        if bounds.names is not None:
+            self.names = list(bounds.names)
+        self.as_object = bounds.as_object
 
     def lookup(self, key):
         ent = self.cells.get(key)
@@ -164,6 +169,21 @@ class SymDoc:
             opt = SymEnum('Option', z3.If(present, z3.BitVecVal(1, 64), z3.BitVecVal(0, 64)), {1: pl})
             self.uni.memo[('opt', id(cell))] = opt
         return opt
+
+    def get_symbolic(self, ex, key):
+        """Object::get with a symbolic key: the object has the field names in
+        `self.names` (each present or absent); any other key is absent"""
+        from . import strings as S
+        names = getattr(self, 'names', None)
+        if names is None:
+            raise ValueError('symbolic key lookup on a document without a name universe')
+        conds = [S.s_eq(key, n) for n in names]
+        conds.append(b_not(b_or(*conds)))
+        k = ex.decide(conds)
+        if k == len(names):
+            return Adt('Option', 0, 'None', [])
+        ex.run.events.append(('get', self.path, names[k]))
+        return self.find_value(names[k])
 
     def render(self, model):
         out = []
